@@ -135,12 +135,18 @@ def lrs_attr_byte(is_eflr, has_pred, has_succ, pad):
     return (128 if is_eflr else 0) + (64 if has_pred else 0) + (32 if has_succ else 0) + (1 if pad else 0)
 
 
+def seg_pad(n):
+    """number of pad bytes for a segment body of n bytes: fill up to the 16-byte minimum, then to an even length"""
+    p = 12 - n if n < 12 else 0
+    return p + (n + p) % 2
+
+
 def seg(is_eflr, has_pred, has_succ, type_byte, payload):
     """one logical record segment: header (UNORM length, attributes, type) + payload + pad bytes (the last one holds the count)
     so that the total length is even and at least 16"""
     n = len(payload)
-    pad = n % 2
-    return enc_unorm(n + 4 + pad) + enc_ushort(lrs_attr_byte(is_eflr, has_pred, has_succ, pad > 0)) + type_byte + payload + (enc_ushort(1) if pad else b'')
+    pad = seg_pad(n)
+    return enc_unorm(n + 4 + pad) + enc_ushort(lrs_attr_byte(is_eflr, has_pred, has_succ, pad > 0)) + type_byte + payload + pad * enc_ushort(pad)
 
 
 def vr(body):
@@ -156,7 +162,7 @@ def ljust(s, n):
     return s + (n - len(s)) * ' '
 
 
-def sul(seq_str, max_len_str, ident):
+def sul_bytes(seq_str, max_len_str, ident):
     """storage unit label (2.3.2): 4 sequence number (right just.), 5 'V1.00', 6 'RECORD', 5 max record length (right just.),
     60 storage set identifier (left just.)  = 80 ASCII bytes"""
     return ascii_bytes(rjust(seq_str, 4) + 'V1.00' + 'RECORD' + rjust(max_len_str, 5) + ljust(ident, 60))
@@ -197,3 +203,23 @@ def lemma_ident_roundtrip(s, rest):
 
 def lemma_ascii_roundtrip(s, rest):
     return dec_ascii(enc_ascii(s) + rest)
+
+
+# ---------------------------------------------------------------------------------------------- IEEE-754 (X-FLOAT: struct is the oracle)
+def ieee32(v):
+    import struct
+    return struct.pack('>f', v)
+
+
+def ieee64(v):
+    import struct
+    return struct.pack('>d', v)
+
+
+def f32_overflow(v):
+    import struct
+    try:
+        struct.pack('>f', v)
+        return False
+    except OverflowError:
+        return True
